@@ -5,11 +5,14 @@ Local Open Scope Z_scope.
 Lemma fp_u32_small : forall x, 0 <= x < 4294967296 -> fp_u32 x = x.
 Proof. intros; unfold fp_u32; apply Z.mod_small; lia. Qed.
 
+Lemma fp_u64_small : forall x, 0 <= x < 18446744073709551616 -> fp_u64 x = x.
+Proof. intros; unfold fp_u64; apply Z.mod_small; lia. Qed.
+
 Lemma fp_Q_ok : forall ip fp, fp_setting_ok ip fp ->
-  fp_Q ip fp = fp_Qraw ip fp /\ 64 <= fp_Q ip fp < 65536.
+  fp_Q ip fp = fp_Qraw ip fp /\ 64 <= fp_Q ip fp <= 4194304.
 Proof.
-  unfold fp_setting_ok, fp_Q, fp_u16, fp_Qraw, fp_one; intros ip fp (Hi & Hf & Hq).
-  assert (0 <= (64 * fp + 500) / 1000) by (apply Z.div_pos; lia).
+  unfold fp_setting_ok, fp_Q, fp_u32, fp_Qraw, fp_one; intros ip fp (Hi & Hf).
+  assert (0 <= (64 * fp + 500) / 1000 <= 64) by lia.
   rewrite Z.mod_small by lia. lia.
 Qed.
 
@@ -52,29 +55,47 @@ Qed.
 Definition fp_calc_plain (A F r : Z) : Z :=
   fp_shr6 (fp_tps * fp_shr6 ((fp_shr8 ((F - fp_one) * r) + fp_one) * A)).
 
-Lemma fp_calc_q_plain : forall A F r,
-  64 <= A < 65536 -> 64 <= F < 65536 -> 0 <= r <= 255 ->
-  fp_calc_q A F r = fp_calc_plain A F r /\ 0 <= fp_calc_plain A F r < 4294967296.
+Lemma fp_calc_plain_bounds : forall A F r,
+  64 <= A <= 4194304 -> 64 <= F <= 4194304 -> 0 <= r <= 255 ->
+  0 <= fp_calc_plain A F r < 18446744073709551616.
 Proof.
-  intros A F r HA HF Hr. unfold fp_calc_q, fp_calc_plain.
+  intros A F r HA HF Hr. unfold fp_calc_plain.
   pose proof (fp_step1_range F r ltac:(lia) Hr) as H1.
-  set (s := fp_shr8 ((F - fp_one) * r)) in *.
-  rewrite (fp_u32_small s) by lia.
-  unfold fp_one in *.
-  rewrite (fp_u32_small (s + 64)) by lia.
-  assert (Hp : 0 <= (s + 64) * A <= 65535 * 65535).
-  { split; [apply Z.mul_nonneg_nonneg; lia|].
-    apply Z.mul_le_mono_nonneg; lia. }
-  rewrite (fp_u32_small ((s + 64) * A)) by lia.
-  rewrite (fp_u32_small ((s + 64) * A + 32)) by lia.
-  unfold fp_shr6 at 2. unfold fp_shr6 at 3.
+  set (s := fp_shr8 ((F - fp_one) * r)) in *. unfold fp_one, fp_shr6, fp_tps in *.
+  assert (Hp : 0 <= (s + 64) * A <= 4194304 * 4194304).
+  { split; [apply Z.mul_nonneg_nonneg; lia|]. apply Z.mul_le_mono_nonneg; lia. }
   set (m := ((s + 64) * A + 32) / 64).
-  assert (Hm : 0 <= m <= 67106817).
+  assert (Hm : 0 <= m <= 274877906945).
   { unfold m; split; [apply Z.div_pos; lia|]. apply Z.div_le_upper_bound; lia. }
-  unfold fp_shr6, fp_tps.
-  assert (0 <= (1000 * m + 32) / 64 < 4294967296).
-  { split; [apply Z.div_pos; lia|]. apply Z.div_lt_upper_bound; lia. }
-  rewrite fp_u32_small by lia. lia.
+  split; [apply Z.div_pos; lia|]. apply Z.div_lt_upper_bound; lia.
+Qed.
+
+(* no step wraps; the result is the plain value, saturated at UINT_MAX *)
+Lemma fp_calc_q_plain : forall A F r,
+  64 <= A <= 4194304 -> 64 <= F <= 4194304 -> 0 <= r <= 255 ->
+  fp_calc_q A F r = Z.min (fp_calc_plain A F r) fp_uint_max.
+Proof.
+  intros A F r HA HF Hr. unfold fp_calc_q.
+  pose proof (fp_step1_range F r ltac:(lia) Hr) as H1.
+  pose proof (fp_calc_plain_bounds A F r HA HF Hr) as HB. unfold fp_calc_plain in *.
+  unfold fp_shr8, fp_shr6, fp_one, fp_tps in *.
+  rewrite (fp_u32_small (F - 64)) by lia.
+  assert (H0 : 0 <= (F - 64) * r <= 4194304 * 255).
+  { split; [apply Z.mul_nonneg_nonneg; lia|]. apply Z.mul_le_mono_nonneg; lia. }
+  rewrite (fp_u64_small ((F - 64) * r)) by lia.
+  rewrite (fp_u64_small ((F - 64) * r + 128)) by lia.
+  set (s := ((F - 64) * r + 128) / 256) in *.
+  rewrite (fp_u64_small (s + 64)) by lia.
+  assert (Hp : 0 <= (s + 64) * A <= 4194304 * 4194304).
+  { split; [apply Z.mul_nonneg_nonneg; lia|]. apply Z.mul_le_mono_nonneg; lia. }
+  rewrite (fp_u64_small ((s + 64) * A)) by lia.
+  rewrite (fp_u64_small ((s + 64) * A + 32)) by lia.
+  set (m := ((s + 64) * A + 32) / 64) in *.
+  assert (Hm : 0 <= m <= 274877906945).
+  { unfold m; split; [apply Z.div_pos; lia|]. apply Z.div_le_upper_bound; lia. }
+  rewrite (fp_u64_small (1000 * m)) by lia.
+  rewrite (fp_u64_small (1000 * m + 32)) by lia.
+  unfold fp_uint_max. destruct (4294967295 <? (1000 * m + 32) / 64) eqn:E; lia.
 Qed.
 
 Lemma fp_calc_plain_mono : forall A F r r', 0 <= A -> 64 <= F -> 0 <= r <= r' ->
@@ -116,7 +137,21 @@ Proof.
   rewrite E. unfold fp_one. replace (F - 64 + 64) with F by lia. reflexivity.
 Qed.
 
-(* ---- the range theorem on the settings ---- *)
+Lemma fp_lo_small : forall A, 0 <= A <= 4194304 -> 0 <= fp_lo A <= 65536032.
+Proof.
+  intros A HA. unfold fp_lo, fp_ticks, fp_shr6, fp_tps. split; [apply Z.div_pos; lia|].
+  apply Z.div_le_upper_bound; lia.
+Qed.
+
+Lemma fp_hi_small : forall A F, 0 <= A <= 4194304 -> 64 <= F <= 192 -> 0 <= fp_hi A F <= 196608048.
+Proof.
+  intros A F HA HF. unfold fp_hi, fp_ticks, fp_mulq, fp_shr6, fp_tps.
+  assert (0 <= F * A <= 192 * 4194304) by (split; [apply Z.mul_nonneg_nonneg; lia|apply Z.mul_le_mono_nonneg; lia]).
+  assert (0 <= (F * A + 32) / 64 <= 12582913) by (split; [apply Z.div_pos; lia|apply Z.div_le_upper_bound; lia]).
+  split; [apply Z.div_pos; lia|]. apply Z.div_le_upper_bound; lia.
+Qed.
+
+(* ---- the range theorem on the settings: ALL settings the setters accept ---- *)
 Theorem fp_timeout_range : forall at_ip at_fp arf_ip arf_fp r,
   fp_setting_ok at_ip at_fp -> fp_setting_ok arf_ip arf_fp -> 0 <= r <= 255 ->
   let A := fp_Q at_ip at_fp in
@@ -130,22 +165,25 @@ Theorem fp_timeout_range : forall at_ip at_fp arf_ip arf_fp r,
   1000 * fp_hi A F <= (fp_ms at_ip at_fp + 8) * (fp_ms arf_ip arf_fp + 8) + 8313 /\
   (* the lower end is taken at r = 0 *)
   fp_calc_timeout at_ip at_fp arf_ip arf_fp 0 = fp_lo A /\
-  (* the upper end at r = 255 (for factors up to 3.0; above, the largest value is below it) *)
-  (F <= 192 -> fp_calc_timeout at_ip at_fp arf_ip arf_fp 255 = fp_hi A F).
+  (* the upper end at r = 255 (for factors up to 3.0; above, the largest value is below it),
+     and T is the unsaturated value unless it exceeds UINT_MAX ticks (49.7 days) *)
+  (F <= 192 -> fp_calc_timeout at_ip at_fp arf_ip arf_fp 255 = fp_hi A F) /\
+  T = Z.min (fp_calc_plain A F r) fp_uint_max.
 Proof.
   intros at_ip at_fp arf_ip arf_fp r Ha Hf Hr A F T.
   destruct (fp_Q_ok _ _ Ha) as [_ HA]. destruct (fp_Q_ok _ _ Hf) as [_ HF].
   pose proof (fp_Q_quant _ _ Ha) as QA. pose proof (fp_Q_quant _ _ Hf) as QF.
   fold A in HA, QA. fold F in HF, QF.
   unfold T, fp_calc_timeout. fold A F.
-  destruct (fp_calc_q_plain A F r HA HF Hr) as [E _]. rewrite E.
-  destruct (fp_calc_q_plain A F 0 HA HF ltac:(lia)) as [E0 _]. rewrite E0.
-  destruct (fp_calc_q_plain A F 255 HA HF ltac:(lia)) as [E255 _]. rewrite E255.
-  repeat split.
-  - rewrite <- (fp_calc_plain_0 A F). apply fp_calc_plain_mono; lia.
-  - apply fp_calc_plain_le_hi; lia.
-  - unfold fp_lo, fp_ticks, fp_shr6, fp_tps. lia.
-  - unfold fp_lo, fp_ticks, fp_shr6, fp_tps. lia.
+  rewrite (fp_calc_q_plain A F r HA HF Hr).
+  rewrite (fp_calc_q_plain A F 0 HA HF ltac:(lia)).
+  rewrite (fp_calc_q_plain A F 255 HA HF ltac:(lia)).
+  pose proof (fp_lo_small A ltac:(lia)) as LS.
+  assert (L0 : fp_lo A <= fp_calc_plain A F r).
+  { rewrite <- (fp_calc_plain_0 A F). apply fp_calc_plain_mono; lia. }
+  pose proof (fp_calc_plain_le_hi A F r ltac:(lia) ltac:(lia) Hr) as LH.
+  unfold fp_uint_max.
+  split; [lia|]. split; [unfold fp_lo, fp_ticks, fp_shr6, fp_tps; lia|]. split.
   - unfold fp_hi, fp_ticks, fp_mulq, fp_shr6, fp_tps.
     set (ma := fp_ms at_ip at_fp) in *. set (mf := fp_ms arf_ip arf_fp) in *.
     assert (Hprod : 1000 * F * (1000 * A) <= (64 * mf + 500) * (64 * ma + 500)).
@@ -154,8 +192,9 @@ Proof.
     assert (H64' : 64 * ((1000 * ((F * A + 32) / 64) + 32) / 64) <= 1000 * ((F * A + 32) / 64) + 32) by lia.
     set (x := (F * A + 32) / 64) in *. set (y := (1000 * x + 32) / 64) in *.
     nia.
-  - apply fp_calc_plain_0.
-  - intros. apply fp_calc_plain_255. lia.
+  - split; [rewrite fp_calc_plain_0; lia|]. split; [|reflexivity].
+    intros HF3. rewrite fp_calc_plain_255 by lia.
+    pose proof (fp_hi_small A F ltac:(lia) ltac:(lia)). lia.
 Qed.
 
 (* settings representable in Q.6 (fractional parts that are multiples of .125): exactly
@@ -170,7 +209,7 @@ Theorem fp_timeout_range_exact : forall at_ip at_fp arf_ip arf_fp r,
   fp_calc_timeout at_ip at_fp arf_ip arf_fp 0 = fp_ms at_ip at_fp.
 Proof.
   intros at_ip at_fp arf_ip arf_fp r Ha Hf Hr Ma Mf T.
-  destruct (fp_timeout_range _ _ _ _ r Ha Hf Hr) as (B & _ & _ & E0 & _).
+  destruct (fp_timeout_range _ _ _ _ r Ha Hf Hr) as (B & _ & _ & E0 & _ & _).
   fold T in B. destruct (fp_Q_ok _ _ Ha) as [_ HA]. destruct (fp_Q_ok _ _ Hf) as [_ HF].
   pose proof (fp_Q_exact _ _ Ha Ma) as XA. pose proof (fp_Q_exact _ _ Hf Mf) as XF.
   set (A := fp_Q at_ip at_fp) in *. set (F := fp_Q arf_ip arf_fp) in *.
@@ -215,18 +254,60 @@ Proof. split; vm_compute; reflexivity. Qed.
 
 (* non-vacuity of fp_setting_ok, and what it excludes *)
 Lemma fp_setting_ok_default : fp_setting_ok 2 0 /\ fp_setting_ok 1 500.
-Proof. unfold fp_setting_ok, fp_Qraw, fp_one. lia. Qed.
+Proof. unfold fp_setting_ok. lia. Qed.
 
-Lemma fp_setting_ok_1022 : forall ip fp, 1 <= ip <= 1022 -> 0 <= fp < 1000 -> fp_setting_ok ip fp.
-Proof. unfold fp_setting_ok, fp_Qraw, fp_one. intros. lia. Qed.
+(* Before the repair the Q.6 values were cast to uint16_t: a timeout of 1024.000 s became Q.6
+   value 0 and every message got T = 0 ticks. *)
+Theorem fp_timeout_range_old_refuted : exists at_ip at_fp arf_ip arf_fp r,
+  fp_setting_ok at_ip at_fp /\ fp_setting_ok arf_ip arf_fp /\ 0 <= r <= 255 /\
+  fp_calc_timeout_old at_ip at_fp arf_ip arf_fp r < fp_ms at_ip at_fp - 8.
+Proof. exists 1024, 0, 1, 500, 255. unfold fp_setting_ok. vm_compute. repeat split; discriminate. Qed.
 
-(* The setters accept integer_part up to 65535, the uint16_t cast in Q() does not: a timeout of
-   1024.000 s becomes Q.6 value 0 and every message gets T = 0 ticks. *)
-Theorem fp_timeout_range_refuted : exists at_ip at_fp arf_ip arf_fp r,
-  1 <= at_ip < 65536 /\ 0 <= at_fp < 1000 /\ 1 <= arf_ip < 65536 /\ 0 <= arf_fp < 1000 /\
-  0 <= r <= 255 /\
-  fp_calc_timeout at_ip at_fp arf_ip arf_fp r < fp_ms at_ip at_fp - 8.
-Proof. exists 1024, 0, 1, 500, 255. vm_compute. repeat split; discriminate. Qed.
+(* ... while for settings whose Q.6 value fits 16 bits the old and the new function agree *)
+Lemma fp_calc_old_eq : forall at_ip at_fp arf_ip arf_fp r,
+  fp_setting_ok at_ip at_fp -> fp_setting_ok arf_ip arf_fp -> 0 <= r <= 255 ->
+  fp_Qraw at_ip at_fp < 65536 -> fp_Qraw arf_ip arf_fp < 65536 ->
+  fp_calc_timeout_old at_ip at_fp arf_ip arf_fp r = fp_calc_timeout at_ip at_fp arf_ip arf_fp r.
+Proof.
+  intros at_ip at_fp arf_ip arf_fp r Ha Hf Hr Sa Sf.
+  destruct (fp_Q_ok _ _ Ha) as [Ea HA]. destruct (fp_Q_ok _ _ Hf) as [Ef HF].
+  unfold fp_calc_timeout_old, fp_calc_timeout.
+  assert (Oa : fp_Q_old at_ip at_fp = fp_Q at_ip at_fp).
+  { rewrite Ea. unfold fp_Q_old, fp_u16. rewrite Z.mod_small; [reflexivity|]. rewrite <- Ea. lia. }
+  assert (Of : fp_Q_old arf_ip arf_fp = fp_Q arf_ip arf_fp).
+  { rewrite Ef. unfold fp_Q_old, fp_u16. rewrite Z.mod_small; [reflexivity|]. rewrite <- Ef. lia. }
+  rewrite Oa, Of. set (A := fp_Q at_ip at_fp) in *. set (F := fp_Q arf_ip arf_fp) in *.
+  rewrite (fp_calc_q_plain A F r HA HF Hr).
+  assert (HA' : 64 <= A < 65536) by lia. assert (HF' : 64 <= F < 65536) by lia.
+  unfold fp_calc_q_old.
+  pose proof (fp_step1_range F r ltac:(lia) Hr) as H1.
+  set (s := fp_shr8 ((F - fp_one) * r)) in *.
+  rewrite (fp_u32_small s) by lia. unfold fp_one in *.
+  rewrite (fp_u32_small (s + 64)) by lia.
+  assert (Hp : 0 <= (s + 64) * A <= 65535 * 65535).
+  { split; [apply Z.mul_nonneg_nonneg; lia|]. apply Z.mul_le_mono_nonneg; lia. }
+  rewrite (fp_u32_small ((s + 64) * A)) by lia.
+  rewrite (fp_u32_small ((s + 64) * A + 32)) by lia.
+  unfold fp_calc_plain. fold s. unfold fp_one, fp_shr6, fp_tps, fp_uint_max.
+  set (m := ((s + 64) * A + 32) / 64).
+  assert (Hm : 0 <= m <= 67106817).
+  { unfold m; split; [apply Z.div_pos; lia|]. apply Z.div_le_upper_bound; lia. }
+  assert (0 <= (1000 * m + 32) / 64 < 4294967296).
+  { split; [apply Z.div_pos; lia|]. apply Z.div_lt_upper_bound; lia. }
+  rewrite fp_u32_small by lia. lia.
+Qed.
+
+Lemma fp_setting_ok_nonvacuous :
+  fp_setting_ok 2 0 /\ fp_setting_ok 1 500 /\
+  (forall ip fp, fp_setting_ok ip fp <-> (0 < ip < 65536 /\ 0 <= fp < 1000)).
+Proof. unfold fp_setting_ok. repeat split; lia. Qed.
+
+Lemma fp_calc_q_nonneg : forall A F r, 0 <= fp_calc_q A F r.
+Proof.
+  intros. unfold fp_calc_q, fp_uint_max.
+  match goal with |- context [if ?c then _ else ?x] => destruct c; [lia|] end.
+  apply Z.div_pos; [|lia]. unfold fp_u64. apply Z.mod_pos_bound. lia.
+Qed.
 
 Lemma fp_calc_row_spec : forall a b c d, fp_calc_row a b c d =
   map (fun r => fp_calc_timeout a b c d r) (map Z.of_nat (seq 0 256)).
